@@ -9,7 +9,7 @@
 From Coq Require Import List ZArith.
 From TK Require Import FibHeap_Model FibHeap_Dn FibHeap_SpecExec FibHeap_Proof_Basics
   FibHeap_Proof_Degree FibHeap_Proof_Decrease FibHeap_Proof_Extract FibHeap_Proof_Main
-  FibHeap_Proof_Refuted.
+  FibHeap_Proof_Refuted FibHeap_State HeapState.
 Import ListNotations.
 Local Open Scope Z_scope.
 
@@ -99,3 +99,20 @@ Example fh_nonvacuous : exists h xs,
   = Ok (h, xs) /\ h_num_nodes h = 4 /\ (1 < length (h_roots h) + forest_size (h_roots h))%nat.
 Proof. eexists; eexists; vm_compute; repeat split; auto with arith. Qed.
 Print Assumptions fh_nonvacuous.
+
+(* T6 the heap keeps its state in its own object.  coq/gen/HeapState.v is the table translate/t_heapstate.py
+   reads from utils/fibonacci_heap.hpp on every run (data members of the two records, objects with static
+   storage duration).  The obligation: no static storage at all, and the data members are exactly the ones
+   the abstraction / the structural dump of the correspondence run accounts for.  That is what lets
+   fh_refines_map, a theorem about one heap value, speak about a program in which several heaps are alive
+   at the same time (one per thread in compute_shortest_distances_matrix). *)
+Theorem fh_state_is_own_record : heap_state_ok HeapState.heap_fields HeapState.heap_statics = true.
+Proof. vm_compute. reflexivity. Qed.
+Print Assumptions fh_state_is_own_record.
+
+Theorem fh_state_ok_means : forall fields statics, heap_state_ok fields statics = true ->
+  statics = [] /\
+  (forall r m t, In (r, m, t) fields -> In (r, m) accounted) /\
+  (forall r m, In (r, m) accounted -> exists t, In (r, m, t) fields).
+Proof. exact FibHeap_State.heap_state_ok_sound. Qed.
+Print Assumptions fh_state_ok_means.
